@@ -7,7 +7,7 @@ from typing import Any, Dict, List, Optional, Set, Tuple
 
 from ..core import AnalysisError, Report
 from ..pysubst import method_outcomes
-from ..pyfacts import Repo, clone, eval_int_expr, normalize_indexed_loops, calls, dotted, fold, norm, walk_no_nested
+from ..pyfacts import Repo, cc, clone, cn, eval_int_expr, normalize_indexed_loops, calls, dotted, fold, norm, walk_no_nested
 
 PARSER = 'flipjump/assembler/fj_parser.py'
 EXPR = 'flipjump/assembler/inner_classes/expr.py'
@@ -345,14 +345,37 @@ def rule_literals(rep: Report, repo: Repo) -> None:
               bad[0] if bad else f'{len(outs)} paths: {sorted(kinds)}', f'{PARSER}:{num.lineno}',
               expected="char -> decoder; 0x -> base 16; 0b -> base 2; else base 10")
     dec = repo.func(PARSER, 'get_char_value_and_length')
-    rets = []
-    for stt in dec.body:
-        if isinstance(stt, ast.If) and isinstance(stt.body[0], ast.Return):
-            rets.append((norm(stt.test), norm(stt.body[0].value)))
-        elif isinstance(stt, ast.Return):
-            rets.append(('', norm(stt.value)))
-    rep.check(rets == [("s[0] != '\\\\'", '(ord(s[0]), 1)'), ('s[1] in char_escape_dict', '(char_escape_dict[s[1]], 2)'),
-                       ('', '(int(s[2:4], 16), 4)')], 'C12.LITERALS', 'char decoder', str(rets),
+    # every path of the decoder by forward substitution (guard order / nesting / named temporaries do not matter). The escape
+    # table is a module constant without None values (checked above), so `T.get(k) is not None` reads as `k in T` and `T.get(k)`
+    # as `T[k]`.
+    from ..pysubst import block_outcomes
+
+    def table_reads(text: str) -> str:
+        t = ast.parse(text, mode='eval').body
+
+        class G(ast.NodeTransformer):
+            def visit_Compare(self, node: ast.Compare) -> ast.AST:
+                self.generic_visit(node)
+                if len(node.ops) == 1 and isinstance(node.ops[0], (ast.IsNot, ast.Is)) and isinstance(node.comparators[0], ast.Constant) \
+                        and node.comparators[0].value is None and isinstance(node.left, ast.Subscript) and norm(node.left.value) == 'char_escape_dict':
+                    return ast.Compare(left=node.left.slice, ops=[ast.In() if isinstance(node.ops[0], ast.IsNot) else ast.NotIn()],
+                                       comparators=[node.left.value])
+                return node
+
+            def visit_Call(self, node: ast.Call) -> ast.AST:
+                self.generic_visit(node)
+                if dotted(node.func) == 'char_escape_dict.get' and len(node.args) == 1 and not node.keywords:
+                    return ast.Subscript(value=ast.Name(id='char_escape_dict', ctx=ast.Load()), slice=node.args[0], ctx=ast.Load())
+                return node
+        # .get() first (inner), then the None comparison on the resulting subscript
+        t2 = G().visit(t)
+        return cn(ast.fix_missing_locations(t2)) if isinstance(t2, (ast.Compare, ast.BoolOp, ast.UnaryOp)) else norm(ast.fix_missing_locations(t2))
+    rets = sorted((tuple(sorted(table_reads(c) for c in o.conds)), table_reads(o.result[1] or 'None') if o.result[0] == 'return' else o.result[0])
+                  for o in block_outcomes(dec.body, {}, 'get_char_value_and_length'))
+    want_rets = sorted([((cc("s[0] != '\\\\'"),), '(ord(s[0]), 1)'),
+                        (tuple(sorted((cc("s[0] == '\\\\'"), cc('s[1] in char_escape_dict')))), '(char_escape_dict[s[1]], 2)'),
+                        (tuple(sorted((cc("s[0] == '\\\\'"), cc('s[1] not in char_escape_dict')))), '(int(s[2:4], 16), 4)')])
+    rep.check(rets == want_rets, 'C12.LITERALS', 'char decoder', str(rets),
               f'{PARSER}:{dec.lineno}', expected='plain -> (ord, 1); escape -> (table, 2); \\xHH -> (hex, 4)')
     st = repo.func(PARSER, 'FJLexer.STRING')
     packs = [norm(n.value) for n in ast.walk(st) if isinstance(n, ast.Assign) and norm(n.targets[0]) == 't.value']
